@@ -267,6 +267,9 @@ func (z3 *zone3) setKind(rs []rec3, filtered bool) string {
 			}
 		}
 		switch {
+		case ok && !usable3(r):
+			// the zone's own chain uses parameters the validators decline to hash with
+			foreignUnusable++
 		case ok:
 			gen++
 		case !usable3(r):
@@ -473,6 +476,8 @@ func execNsec3(f []string) vlib.Res {
 		}
 		curZ3, curSet3, curRR3 = z3, nil, nil
 		return vlib.Res{Impl: "ring=" + itoa(len(z3.ring()))}
+	case "auth":
+		return execAuthNsec3(f)
 	case "ring":
 		// the genuine ring of the current zone (for building witnesses by hand); oracle-side only
 		return vlib.Res{Impl: recs3Str(curZ3.ring())}
@@ -690,6 +695,23 @@ func execNsec3(f []string) vlib.Res {
 
 // ---- generator ----
 
+// signable3: every record is something a signer can put on the wire.
+func signable3(set []rec3) bool {
+	for _, x := range set {
+		if x.saltBad || x.ownerHash == nil || x.next == nil || x.hashLen != len(x.next) {
+			return false
+		}
+	}
+	return true
+}
+
+func authVariant(r *vlib.R) string {
+	if r.Chance(2, 3) {
+		return "good"
+	}
+	return vlib.Pick(r, []string{"cd", "nosig", "nodsig", "badsig"})
+}
+
 func genNsec3Case(r *vlib.R, emit func(string)) int {
 	z := genZone(r)
 	rich := r.Chance(1, 4)
@@ -711,7 +733,7 @@ func genNsec3Case(r *vlib.R, emit func(string)) int {
 	default:
 		z3.salt = []byte{0xab, 0xcd}
 	}
-	z3.iter = vlib.Pick(r, []int{0, 0, 0, 1, 2, 5, 10, 150})
+	z3.iter = vlib.Pick(r, []int{0, 0, 0, 1, 2, 5, 10, 150, 0, 1, 0, 151, 200})
 	optSpec := "-"
 	if rich || r.Chance(2, 5) {
 		z3.optOut = true
@@ -960,6 +982,11 @@ func genNsec3Case(r *vlib.R, emit func(string)) int {
 			emit(fmt.Sprintf("h nod %s %s %d %d %s", sg, q, t, c, hashTable(q, sg)))
 			emit(fmt.Sprintf("h agg %s %s %d %d %s", sg, q, t, c, hashTable(q, sg)))
 			cnt += 3
+			if signable3(set) && r.Chance(1, 2) {
+				// the same records and question through the real Resolver.authority
+				emit(fmt.Sprintf("h auth %s %s %d %s %s %s", sg, q, t, vlib.Pick(r, []string{"nx", "nd"}), authVariant(r), hashTable(q, sg)))
+				cnt++
+			}
 			if r.Chance(1, 2) {
 				emit(fmt.Sprintf("h dlg %s %s %s", sg, q, hashTable(q, sg)))
 				cnt++
